@@ -81,5 +81,8 @@ def run(chk, fb, tier):
     channels.rule_attr_unescape(chk, fb, "C03.a")
     rule_shared_formula(chk, fb)
     rule_values(chk, fb)
+    import symmetry
+
+    symmetry.rule_enum_spec(chk, fb, "C03.d", "read")
     chk.assume("the translation kernel itself is decided under C09.d")
     chk.note("not decided: agreement with an independent decoder on concrete files (value-level); style resolution is decided under C05.c")
